@@ -13,6 +13,7 @@ import (
 	"math/rand"
 	"net"
 	"sort"
+	"strconv"
 	"strings"
 	"sync"
 	"sync/atomic"
@@ -43,6 +44,75 @@ type clientCore struct {
 	// invokes each pointer once per delivered message.  A second Subscribe under a used id would be
 	// a different pointer with the same label, so such a line is refused (bad-op) on both sides.
 	usedCb map[int]bool
+	// completion tag -> packet identifier the request was written with (what the peer received).
+	// An acknowledgement on an op line may name its request as #<tag>: the scripted peer then
+	// acknowledges the identifier it received, whatever the library assigned.
+	written map[int]int
+}
+
+// apiReq: wire name and completion tag of a request that carries a packet identifier.
+func apiReq(api []string) (name string, tag int, ok bool) {
+	switch api[0] {
+	case "pub":
+		if len(api) >= 8 && api[2] != "0" {
+			return "PUB", atoi(api[7]), true
+		}
+	case "sub":
+		if len(api) >= 5 {
+			return "SUBSCRIBE", atoi(api[3]), true
+		}
+	case "unsub":
+		if len(api) >= 4 {
+			return "UNSUBSCRIBE", atoi(api[3]), true
+		}
+	}
+	return "", 0, false
+}
+
+// noteWritten records the identifier of the request of `api` among the packets the peer received.
+func (c *clientCore) noteWritten(api []string, items []string) {
+	name, tag, ok := apiReq(api)
+	if !ok {
+		return
+	}
+	for _, it := range items {
+		f := strings.Fields(strings.TrimPrefix(it, "W "))
+		if len(f) == 0 || f[0] != name {
+			continue
+		}
+		k := 1
+		if name == "PUB" {
+			k = 5
+		}
+		if len(f) > k {
+			if c.written == nil {
+				c.written = map[int]int{}
+			}
+			c.written[tag] = atoi(f[k])
+			return
+		}
+	}
+}
+
+// resolveRefs replaces every word #<tag> by the identifier recorded for that tag (0 if none).
+func (c *clientCore) resolveRefs(ws []string) []string {
+	out := make([]string, len(ws))
+	for i, w := range ws {
+		if strings.HasPrefix(w, "#") {
+			w = strconv.Itoa(c.written[atoi(w[1:])])
+		}
+		out[i] = w
+	}
+	return out
+}
+
+func hasRef(ws []string) bool {
+	for _, w := range ws {
+		if strings.HasPrefix(w, "#") {
+			return true
+		}
+	}
+	return false
 }
 
 // subCbReused reports whether the api words are a Subscribe whose callback id was used before in
@@ -423,12 +493,26 @@ func (c *clientCore) handle(ws []string) string {
 	switch ws[0] {
 	case "reset":
 		c.teardown()
-		message.VerifResetPacketID(0)
+		// the counter behind automatic packet identifiers is process-wide: every episode starts
+		// with it at 0, on both sides
+		message.VerifSetPacketCounter(0)
 		c.log = nil
 		c.pendingBarrierPongs = 0
 		c.pingsSent = 0
 		c.usedCb = nil
+		c.written = nil
 		return "reset"
+	case "setctr":
+		// other users of the process-wide counter have advanced it to this value
+		if len(ws) != 2 {
+			return "bad-op"
+		}
+		v, err := strconv.ParseUint(ws[1], 10, 64)
+		if err != nil {
+			return "bad-op"
+		}
+		message.VerifSetPacketCounter(v)
+		return "setctr"
 	case "connect":
 		ln, err := net.Listen("tcp", "127.0.0.1:0")
 		if err != nil {
@@ -512,7 +596,9 @@ func (c *clientCore) handle(ws []string) string {
 		if err != nil {
 			extra = []string{"apierr"}
 		}
-		return c.collect(extra, ok)
+		out := c.collect(extra, ok)
+		c.noteWritten(ws[1:], strings.Split(out, ";"))
+		return out
 	case "peer":
 		if c.cln == nil {
 			return "-"
@@ -525,7 +611,7 @@ func (c *clientCore) handle(ws []string) string {
 			return c.collect(nil, ok)
 		}
 		c.peer.SetWriteDeadline(time.Now().Add(brokerWait))
-		c.peer.Write(peerPacketBytes(ws[1:]))
+		c.peer.Write(peerPacketBytes(c.resolveRefs(ws[1:])))
 		ok := c.sync()
 		return c.collect(nil, ok)
 	case "early":
@@ -551,7 +637,15 @@ func (c *clientCore) handle(ws []string) string {
 		case <-time.After(brokerWait):
 			return "NO-WINDOW"
 		}
-		c.peer.Write(peerPacketBytes(ack))
+		ok0 := true
+		if hasRef(ack) {
+			// the acknowledgement may name the request being made: the peer has to have read it
+			ok0 = c.sync()
+			c.rd.mu.Lock()
+			c.noteWritten(api, c.rd.items)
+			c.rd.mu.Unlock()
+		}
+		c.peer.Write(peerPacketBytes(c.resolveRefs(ack)))
 		ok1 := c.sync()
 		c.relse <- struct{}{}
 		err := <-errc
@@ -560,7 +654,9 @@ func (c *clientCore) handle(ws []string) string {
 		if err != nil {
 			extra = []string{"apierr"}
 		}
-		return c.collect(extra, ok1 && ok2)
+		out := c.collect(extra, ok0 && ok1 && ok2)
+		c.noteWritten(api, strings.Split(out, ";"))
+		return out
 	}
 	return "bad-op"
 }
@@ -597,10 +693,47 @@ func genClient(seed int64, n int, tier string, w *bufio.Writer) {
 		}
 		emit("connect connack %d 0", r.Intn(2))
 		done++
+		// Automatic identifiers.  One episode in five starts with the process-wide counter a few
+		// steps before its low 16 bits wrap (also far up in the 64-bit range), so that identifiers
+		// are assigned across the wrap while requests are in flight; in these and in a quarter of
+		// the other episodes most requests leave the identifier to the library.  Their
+		// acknowledgements name the request (#<tag>): the peer acknowledges the identifier it
+		// received.  Caller-supplied identifiers and the identifiers of stray acknowledgements are
+		// then taken from ranges the counter does not reach within an episode (a caller-supplied
+		// identifier equal to an automatic one in flight is a different matter: see NOTES-client-ids.md).
+		wrap := r.Intn(5) == 0
+		auto := wrap || r.Intn(4) == 0
+		if wrap {
+			var k uint64
+			switch r.Intn(4) {
+			case 0:
+				k = 0
+			case 1:
+				k = uint64(1 + r.Intn(3))
+			case 2:
+				k = uint64(r.Int63n(1 << 47))
+			default:
+				k = 1<<48 - 1 // the 64-bit counter itself wraps
+			}
+			emit("setctr %d", k<<16+uint64(65530+r.Intn(6)))
+			done++
+		}
 		nextID, tag, cb := 1, 0, 0
-		var flight1, flight2, subsF, unsubsF []int
+		stray := 0
+		if auto {
+			nextID, stray = 20000, 40000
+		}
+		ownID := func() (int, string) { // identifier field of the op line, name of the request in acknowledgements
+			if auto && r.Intn(3) != 0 {
+				return 0, fmt.Sprintf("#%d", tag)
+			}
+			id := nextID
+			nextID++
+			return id, fmt.Sprint(id)
+		}
+		var flight1, flight2, subsF, unsubsF []string
 		var inbound2 []int
-		recd := map[int]bool{}
+		recd := map[string]bool{}
 		pingsOut := 0
 		eplen := 10 + r.Intn(50)
 		for i := 0; i < eplen && done < n; i++ {
@@ -608,35 +741,40 @@ func genClient(seed int64, n int, tier string, w *bufio.Writer) {
 			tag++
 			pub := func() string {
 				q := r.Intn(3)
-				id := 0
+				id, ref := 0, ""
 				if q > 0 {
-					id = nextID
-					nextID++
+					id, ref = ownID()
 				}
 				pl := make([]byte, r.Intn(4))
 				r.Read(pl)
 				if q == 1 {
-					flight1 = append(flight1, id)
+					flight1 = append(flight1, ref)
 				}
 				if q == 2 {
-					flight2 = append(flight2, id)
+					flight2 = append(flight2, ref)
 				}
 				return fmt.Sprintf("pub 0 %d %d %s %d %s %d", q, r.Intn(2), hexStr(pick(r, names)), id, hexOf(pl), tag)
 			}
 			ackFor := func(api string) string {
 				f := strings.Fields(api)
+				name := func(id, tag string) string {
+					if id == "0" {
+						return "#" + tag
+					}
+					return id
+				}
 				switch f[0] {
 				case "pub":
 					if f[2] == "1" {
-						return "puback " + f[5]
+						return "puback " + name(f[5], f[7])
 					}
 					if f[2] == "2" {
-						return "pubcomp " + f[5]
+						return "pubcomp " + name(f[5], f[7])
 					}
 				case "sub":
-					return "suback " + f[1] + " 1"
+					return "suback " + name(f[1], f[3]) + " 1"
 				case "unsub":
-					return "unsuback " + f[1]
+					return "unsuback " + name(f[1], f[3])
 				case "ping":
 					return "pingresp"
 				}
@@ -676,9 +814,8 @@ func genClient(seed int64, n int, tier string, w *bufio.Writer) {
 					used[f] = true
 					parts = append(parts, fmt.Sprintf("%s:%d", hexStr(f), r.Intn(3)))
 				}
-				id := nextID
-				nextID++
-				subsF = append(subsF, id)
+				id, ref := ownID()
+				subsF = append(subsF, ref)
 				emit("api sub %d %s %d %d", id, strings.Join(parts, ","), tag, cb)
 			case k < 44:
 				if len(subsF) > 0 {
@@ -692,9 +829,9 @@ func genClient(seed int64, n int, tier string, w *bufio.Writer) {
 					for r.Intn(2) == 0 && len(codes) < 3 {
 						codes = append(codes, pick(r, []string{"0", "1", "2", "128"}))
 					}
-					emit("peer suback %d %s", id, strings.Join(codes, ","))
+					emit("peer suback %s %s", id, strings.Join(codes, ","))
 				} else {
-					emit("peer suback %d 0", 1+r.Intn(20))
+					emit("peer suback %d 0", stray+1+r.Intn(20))
 				}
 			case k < 62:
 				q := r.Intn(3)
@@ -722,10 +859,10 @@ func genClient(seed int64, n int, tier string, w *bufio.Writer) {
 					if r.Intn(3) == 0 {
 						j = r.Intn(len(flight1))
 					}
-					emit("peer puback %d", flight1[j])
+					emit("peer puback %s", flight1[j])
 					flight1 = append(flight1[:j], flight1[j+1:]...)
 				} else {
-					emit("peer puback %d", 1+r.Intn(30))
+					emit("peer puback %d", stray+1+r.Intn(30))
 				}
 			case k < 88:
 				if len(flight2) > 0 {
@@ -734,19 +871,18 @@ func genClient(seed int64, n int, tier string, w *bufio.Writer) {
 						j = r.Intn(len(flight2))
 					}
 					if !recd[flight2[j]] && r.Intn(4) != 0 {
-						emit("peer pubrec %d", flight2[j]) // PUBREC precedes PUBCOMP, never follows it
+						emit("peer pubrec %s", flight2[j]) // PUBREC precedes PUBCOMP, never follows it
 						recd[flight2[j]] = true
 					} else {
-						emit("peer pubcomp %d", flight2[j])
+						emit("peer pubcomp %s", flight2[j])
 						flight2 = append(flight2[:j], flight2[j+1:]...)
 					}
 				} else {
-					emit("peer pubrec %d", 200+r.Intn(30))
+					emit("peer pubrec %d", stray+200+r.Intn(30))
 				}
 			case k < 92:
-				id := nextID
-				nextID++
-				unsubsF = append(unsubsF, id)
+				id, ref := ownID()
+				unsubsF = append(unsubsF, ref)
 				var parts []string
 				for j := 0; j < 1+r.Intn(2); j++ {
 					parts = append(parts, hexStr(pick(r, filts)))
@@ -754,10 +890,10 @@ func genClient(seed int64, n int, tier string, w *bufio.Writer) {
 				emit("api unsub %d %s %d", id, strings.Join(parts, ","), tag)
 			case k < 95:
 				if len(unsubsF) > 0 {
-					emit("peer unsuback %d", unsubsF[0])
+					emit("peer unsuback %s", unsubsF[0])
 					unsubsF = unsubsF[1:]
 				} else {
-					emit("peer unsuback %d", 1+r.Intn(30))
+					emit("peer unsuback %d", stray+1+r.Intn(30))
 				}
 			case k < 98:
 				// another ping, whether or not earlier ones are outstanding (fewer the more there are)
